@@ -31,15 +31,22 @@ def gen_dump(rng):
             want = []
             text = []
             onlyinc = rng.random() < 0.2
+            upper = rng.random() < 0.35           # tags are matched case-insensitively
             for _ in range(rng.randint(1, 4)):
                 k, src, inc = rng.choice(TPL_SEGS)
+                if upper and k != "comment":
+                    src = src.replace("noinclude", rng.choice(["NOINCLUDE", "NoInclude"])).replace(
+                        "includeonly", rng.choice(["INCLUDEONLY", "IncludeOnly"]))
+                elif upper:
+                    continue
                 seg_id[0] += 1
                 text.append(src % seg_id[0] if "%d" in src else src)
                 want.append(inc % seg_id[0] if "%d" in inc else inc)
             body, includable = "".join(text), "".join(want)
             if onlyinc:
                 seg_id[0] += 1
-                body = body + "<onlyinclude>ONLY%d</onlyinclude>" % seg_id[0] + "tail"
+                oi = rng.choice(["OnlyInclude", "ONLYINCLUDE"]) if upper else "onlyinclude"
+                body = body + "<%s>ONLY%d</%s>" % (oi, seg_id[0], oi) + "tail"
                 includable = "ONLY%d" % seg_id[0]
         else:
             body = rng.choice(BODIES)
